@@ -29,7 +29,7 @@ structure CodecW where
   cut : Nat → Bytes → Nat → Except Err (Bytes × Nat × Nat)
   /-- `WrapResource(raw)` -/
   wrapResource : Bytes → Except Err Bytes
-  /-- `Close()` -/
+  /-- `Close()` of the CodecWriter -/
   close : Option Err
 
 def defaultDChunkSize : Nat := 65536
@@ -131,15 +131,22 @@ def writeDChunks (cw : CodecW) (eof : Bool) : Nat → Writer → Writer × Optio
       | some e => ({ w with err := some e }, some e)
       | none => writeDChunks cw eof fuel { w with uncompressed := w.uncompressed.advance dSize }
 
+/-- result of `tryCChunk`: `nil`, `errInternalShortCSize` (an unexported sentinel that only
+`tryCChunk` itself can produce, compared by identity in `writeCChunks`), or a real error -/
+inductive TryResult where
+  | ok
+  | short
+  | err (e : Err)
+
 /-- `tryCChunk` -/
-def tryCChunk (cw : CodecW) (w : Writer) (targetDChunkSize : Nat) (force : Bool) : Writer × Option Err :=
+def tryCChunk (cw : CodecW) (w : Writer) (targetDChunkSize : Nat) (force : Bool) : Writer × TryResult :=
   let (peek0, peek1) := w.uncompressed.peek targetDChunkSize
   let dSize := peek0.length + peek1.length
   match compressAndUse cw w peek0 peek1 with
-  | (w, .error e) => (w, some e)
+  | (w, .error e) => (w, .err e)
   | (w, .ok (out, res2, res3)) =>
     let cBytes := out.compressed
-    if cBytes.length < w.cChunkSize && !force then (w, some .internalShortCSize) else
+    if cBytes.length < w.cChunkSize && !force then (w, .short) else
     if cBytes.length ≤ w.cChunkSize then
       let u := w.uncompressed.advance dSize
       let (u, z) := u.advancePastLeadingZeroes
@@ -147,13 +154,13 @@ def tryCChunk (cw : CodecW) (w : Writer) (targetDChunkSize : Nat) (force : Bool)
       let (c, e) := w.chunkWriter.addChunk dSize out.codec cBytes res2 res3
       let w := { w with chunkWriter := c, uncompressed := u }
       match e with
-      | some e => ({ w with err := some e }, some e)
-      | none => (w, none)
+      | some e => ({ w with err := some e }, .err e)
+      | none => (w, .ok)
     else
     match cw.cut out.codec cBytes w.cChunkSize with
-    | .error e => ({ w with err := some e }, some e)
+    | .error e => ({ w with err := some e }, .err e)
     | .ok (cBytes, eLen, dLen) =>
-      if dLen == 0 then ({ w with err := some .cChunkSizeIsTooSmall }, some .cChunkSizeIsTooSmall) else
+      if dLen == 0 then ({ w with err := some .cChunkSizeIsTooSmall }, .err .cChunkSizeIsTooSmall) else
       let dSize := dLen
       let cBytes := cBytes.take eLen
       let u := w.uncompressed.advance dSize
@@ -162,8 +169,8 @@ def tryCChunk (cw : CodecW) (w : Writer) (targetDChunkSize : Nat) (force : Bool)
       let (c, e) := w.chunkWriter.addChunk dSize out.codec cBytes res2 res3
       let w := { w with chunkWriter := c, uncompressed := u }
       match e with
-      | some e => ({ w with err := some e }, some e)
-      | none => (w, none)
+      | some e => ({ w with err := some e }, .err e)
+      | none => (w, .ok)
 
 /-- outcome of the inner `for` of `writeCChunks` -/
 inductive InnerResult where
@@ -178,9 +185,9 @@ def cChunkInner (cw : CodecW) : Nat → Writer → Nat → Writer × InnerResult
     let next := if next > maxTargetDChunkSize then maxTargetDChunkSize else next
     let force := decide (next ≤ targetDChunkSize)
     match tryCChunk cw w targetDChunkSize force with
-    | (w, none) => (w, .continueOuter)
-    | (w, some e) =>
-      if e != .internalShortCSize then (w, .ret (some e)) else
+    | (w, .ok) => (w, .continueOuter)
+    | (w, .err e) => (w, .ret (some e))
+    | (w, .short) =>
       if w.uncompressed.length ≤ targetDChunkSize then (w, .ret none) else
       cChunkInner cw fuel w next
 
@@ -218,21 +225,33 @@ def Write (cw : CodecW) (w : Writer) (p : Bytes) : Writer × Nat × Option Err :
     | some e => (w, 0, some e)
     | none => (w, n, none)
 
+/-- `if err := w.initialize(); w.err == nil { w.err = err }` -/
+def closeStep1 (cw : CodecW) (w : Writer) : Writer :=
+  let (w, e) := w.init cw
+  if w.err.isNone then { w with err := e } else w
+
+/-- `if w.err == nil { w.err = w.write(true) }` -/
+def closeStep2 (cw : CodecW) (w : Writer) : Writer :=
+  if w.err.isNone then
+    let (w, e) := w.write cw true
+    { w with err := e }
+  else w
+
+/-- `if w.err == nil { w.err = w.chunkWriter.Close() }` -/
+def closeStep3 (w : Writer) : Writer :=
+  if w.err.isNone then
+    let (c, e) := w.chunkWriter.close
+    { w with chunkWriter := c, err := e }
+  else w
+
+/-- `if err := w.CodecWriter.Close(); w.err == nil { w.err = err }` -/
+def closeStep4 (cw : CodecW) (w : Writer) : Writer :=
+  if w.err.isNone then { w with err := cw.close } else w
+
 /-- `Close()` -/
 def Close (cw : CodecW) (w : Writer) : Writer × Option Err :=
   if w.closed then (w, w.err) else
-  let w := { w with closed := true }
-  let (w, e) := w.init cw
-  let w := if w.err.isNone then { w with err := e } else w
-  let w := if w.err.isNone then
-      let (w, e) := w.write cw true
-      { w with err := e }
-    else w
-  let w := if w.err.isNone then
-      let (c, e) := w.chunkWriter.close
-      { w with chunkWriter := c, err := e }
-    else w
-  let w := if w.err.isNone then { w with err := cw.close } else w
+  let w := closeStep4 cw (closeStep3 (closeStep2 cw (closeStep1 cw { w with closed := true })))
   if w.err.isNone then ({ w with err := some .alreadyClosed }, none)
   else (w, w.err)
 
